@@ -402,6 +402,18 @@ func doFormat(w io.Writer, obj Object, opt OutputOptions, needSep bool) (bool, e
 		}
 
 	case Dict:
+		if x == nil {
+			// a nil Dict is the null object, like a nil Array: the readers map null
+			// to a nil Dict, and an empty dictionary "<<>>" is a different value
+			if needSep {
+				_, err := io.WriteString(w, " ")
+				if err != nil {
+					return false, err
+				}
+			}
+			_, err := io.WriteString(w, "null")
+			return true, err
+		}
 		err := formatDict(w, opt, x)
 		return false, err
 
